@@ -381,3 +381,9 @@ func plainInt(s string) (int, bool) {
 	}
 	return n, true
 }
+
+// NewHMAC returns a constructor of the standard HMAC for a supported hash id.
+func NewHMAC(algo int) func(key []byte) hash.Hash {
+	h := newHash(algo)
+	return func(key []byte) hash.Hash { return hmac.New(h, key) }
+}
